@@ -56,6 +56,8 @@ def load_value(load, t, pos, spd):
         T += load['S'] * math.sin(load['W'] * t)
     if load['step_t'] is not None and t >= load['step_t']:
         T += load['step_A']
+    if load.get('P'):
+        T += load['P'] * math.sin(2 * math.pi * load['fp'] * pos)          # a cam: position-periodic, period 1/fp radians
     return T
 
 
@@ -175,6 +177,12 @@ def make_load(b, load):
             # online monitor at the load hook: a run that computes far more instants than its duration allows is stopped here
             # (otherwise a runaway time loop would only ever show up as a watchdog timeout, i.e. inconclusive)
             raise RunawayRun(f'more than {b.max_calls} load evaluations: the run computes instants far beyond the requested simulation time')
+        if load.get('P') and load.get('lib_trig'):
+            # the user writes the cam term with the library's own trigonometry on the position it receives
+            # (AngularPosition.sin(frequency=...) = sin(2 pi f theta)); the oracle (C02) evaluates the same law with math.sin
+            base_ = load_value(dict(load, P=0.0), t, p, w) + load['P'] * angular_position.sin(frequency=load['fp'])
+            u_ = units_cycle[len(b.pt.time) % len(units_cycle)] if units_cycle else lu
+            return Torque(base_ / SI.FACT['Torque'][u_], u_)
         if load.get('bare'):
             return load_value(load, t, p, w)          # the unit was forgotten: a bare float (the solver answers with a TypeError)
         if load.get('numpy'):
